@@ -44,6 +44,9 @@ def call_np(interp, name, args, kwargs, lineno):
             return Box(arr)
         if isinstance(x, (Rat, bool)):
             return Box(snap(x))
+        from .interp import AForeign
+        if isinstance(x, (AForeign, ASparse)):
+            return Box(snap(Rat.atom(('foreign', getattr(x, 'kind', 'sparse')))))
         raise AnalysisError(f"np.{name} of {x!r}")
     if name == 'copy':
         if isinstance(args[0], Box) and A.is_flatvec(args[0]):
@@ -529,8 +532,13 @@ def call_builtin(interp, name, args, kwargs, lineno, fr):
             return (n in o.attrs) or bool(sm.find_method(o.cls, n)) or bool(sm.find_getter(o.cls, n))
         if is_arraylike(o):
             return n in ('ndim', 'shape', 'size', '__neg__', 'ravel', 'item')
-        if isinstance(o, (Rat, ASparse)):
-            return n in ('__neg__', 'ndim')
+        if isinstance(o, ASparse):
+            return n in ('__neg__', 'ndim', 'shape', 'nnz', 'dtype', 'T', 'toarray', 'tocsr', 'size', 'data', 'indices', 'indptr', 'copy')
+        if isinstance(o, Rat):
+            return n in ('__neg__', 'real', 'imag', 'conjugate', '__float__')        # a python number (no ndim / shape)
+        from .interp import AForeign
+        if isinstance(o, AForeign):
+            return n in o.has
         return False
     if name == 'getattr':
         o, n = args[0], args[1]
@@ -628,6 +636,8 @@ def type_of(x):
         return ATypeRef('NoneType')
     if isinstance(x, ASparse):
         return ATypeRef('csr_array')
+    if type(x).__name__ == 'AForeign':
+        return ATypeRef(x.kind)
     return ATypeRef(type(x).__name__)
 
 
